@@ -258,29 +258,21 @@ def GbPrefixOK (s : Str) : Bool :=
   | none => true
   | some (pre, _) => startsC ',' (lstrip (s.drop 7)) || (strip pre).isEmpty
 
-/-- the character after `=>` is a blank, or the text ends there (the real `match` skips THREE
-    characters, `line[i + 3:]`, for the two of `=>`) -/
-def GbArrowOK (s : Str) : Bool :=
-  match cutSub2 ':' ':' (lstrip (s.drop 7)) with
-  | none => true
-  | some (_, post) =>
-    match cutSub2 '=' '>' (lstrip post) with
-    | none => true
-    | some (_, r) => (r.take 1).all isSpace
-
-def GbOK (s : Str) : Bool := GbPrefixOK s && GbArrowOK s
+/-- kept under its old name: since /repo 98a89ee (`line[i + 2:]`) the only condition left is the one on
+    the text before `::` (the former second conjunct "a blank follows `=>`" is gone) -/
+def GbOK (s : Str) : Bool := GbPrefixOK s
 
 theorem t_toks_all_space {w : Str} (h : w.all isSpace = true) : toks w = [] :=
   toks_blanks (by simpa using h)
 
 /-- **Generic_Binding**, exact relation for ALL accepted inputs: the printed tokens are those of the
-    input with (1) the text `p` between `GENERIC` and `::` removed (it is blank unless the input has
-    junk there and no leading comma) and (2) the ONE character `c` after `=>` removed. -/
+    input with the text `p` between `GENERIC` and `::` removed (it is blank unless the input has
+    junk there and no leading comma).  Nothing is lost at `=>` any more (/repo 98a89ee). -/
 theorem Generic_Binding_exact (o : Oracle Node) (ho : OracleTok o) (s : Str)
     (items : List (Item Node)) (hm : (planGenericBinding s).bind (runSlots o) = .ok items) :
     ∃ t, tostrGenericBinding o items = .ok t ∧
-      (∃ a p b c d : Str, toks s = a ++ (toks p ++ (b ++ (toks c ++ d))) ∧ toks t = a ++ (b ++ d) ∧
-        c.length ≤ 1 ∧ (GbPrefixOK s = true → toks p = []) ∧ (GbArrowOK s = true → toks c = [])) ∧
+      (∃ a p b : Str, toks s = a ++ (toks p ++ b) ∧ toks t = a ++ b ∧
+        (GbPrefixOK s = true → toks p = [])) ∧
       ((∀ i ∈ items, net (i.text o) = 0) → net t = 0) := by
   obtain ⟨slots, hp, hr⟩ := Res.bind_eq_ok hm
   unfold planGenericBinding at hp
@@ -315,13 +307,6 @@ theorem Generic_Binding_exact (o : Oracle Node) (ho : OracleTok o) (s : Str)
     cases hp
     have hP := t_toks_cutSub2 hcut2
     rw [k5, toks_lstrip] at hP
-    have hR : toks r = toks (r.take 1) ++ toks (r.drop 1) := by
-      rw [← toks_append, List.take_append_drop]
-    have hlen : (r.take 1).length ≤ 1 := by simp [List.length_take]; omega
-    have hA : GbArrowOK s = true → toks (r.take 1) = [] := by
-      intro h
-      simp only [GbArrowOK, hcut, hcut2] at h
-      exact t_toks_all_space h
     have k1 : toks "GENERIC :: ".toList = toks "GENERIC".toList ++ toks "::".toList := by decide
     have k2 : toks "GENERIC, ".toList = toks "GENERIC".toList ++ toks ",".toList := by decide
     have k3 : toks " :: ".toList = toks "::".toList := by decide
@@ -353,9 +338,9 @@ theorem Generic_Binding_exact (o : Oracle Node) (ho : OracleTok o) (s : Str)
       simp only [Item.text, List.drop_succ_cons, List.drop_zero, toks_strip, toks_rstrip,
         toks_lstrip] at hi' hj' hk'
       refine ⟨_, rfl, ⟨toks "GENERIC".toList, [],
-        toks ",".toList ++ (toks pre' ++ (toks "::".toList ++ (toks l ++ toks "=>".toList))),
-        r.take 1, toks (r.drop 1), ?_, ?_, hlen, fun _ => rfl, hA⟩, ?_⟩
-      · rw [hS, hL, hP, hR, consC]
+        toks ",".toList ++ (toks pre' ++ (toks "::".toList ++ (toks l ++ (toks "=>".toList ++ toks r)))),
+        ?_, ?_, fun _ => rfl⟩, ?_⟩
+      · rw [hS, hL, hP, consC]
         simp only [toks_append, toks_nil, List.append_assoc, List.nil_append]
       · simp only [toks_append, Item.text, k2, k3, k6, hi', hj', hk', List.append_assoc]
       · intro hb
@@ -378,10 +363,8 @@ theorem Generic_Binding_exact (o : Oracle Node) (ho : OracleTok o) (s : Str)
         have : (strip pre).isEmpty = true := by simpa [hc] using h
         rw [← toks_strip]; exact t_toks_empty this
       refine ⟨_, rfl, ⟨toks "GENERIC".toList, pre,
-        toks "::".toList ++ (toks l ++ toks "=>".toList),
-        r.take 1, toks (r.drop 1), ?_, ?_, hlen, hPre, hA⟩, ?_⟩
-      · rw [hS, hL, hP, hR]
-        simp only [List.append_assoc]
+        toks "::".toList ++ (toks l ++ (toks "=>".toList ++ toks r)), ?_, ?_, hPre⟩, ?_⟩
+      · rw [hS, hL, hP]
       · simp only [toks_append, Item.text, k1, k6, hj', hk', List.append_assoc]
       · intro hb
         have h2 := hb (.node nj) (by simp)
@@ -389,57 +372,49 @@ theorem Generic_Binding_exact (o : Oracle Node) (ho : OracleTok o) (s : Str)
         simp only [Item.text] at h2 h3
         simp only [net_append, Item.text, n1, n4, h2, h3]; rfl
 
-/- full statement (FALSE for the real code, see the two witnesses below):
+/- full statement (still FALSE for the real code: the text before `::` is not checked, witness
+   `Generic_Binding_drops_prefix`):
    theorem Generic_Binding_tostr_match_tokens … : ∃ t, tostrGenericBinding o items = .ok t ∧ toks t = toks s ∧ … -/
 
-/-- **Generic_Binding** under `GbOK` (blank after `=>`, nothing between `GENERIC` and `::` unless a
-    leading comma): the printed text has exactly the tokens of the input -/
+/-- **Generic_Binding** under `GbOK` (= `GbPrefixOK`: nothing between `GENERIC` and `::` unless a
+    leading comma; NO condition on `=>` any more since /repo 98a89ee): the printed text has exactly
+    the tokens of the input -/
 theorem Generic_Binding_tostr_match_tokens_partial (o : Oracle Node) (ho : OracleTok o) (s : Str)
     (items : List (Item Node)) (hm : (planGenericBinding s).bind (runSlots o) = .ok items)
     (hok : GbOK s = true) :
     ∃ t, tostrGenericBinding o items = .ok t ∧ toks t = toks s ∧
       ((∀ i ∈ items, net (i.text o) = 0) → net t = 0) := by
-  obtain ⟨t, ht, ⟨a, p, b, c, d, e1, e2, _, hp, hc⟩, hn⟩ := Generic_Binding_exact o ho s items hm
-  have hok' : GbPrefixOK s = true ∧ GbArrowOK s = true := by simpa [GbOK] using hok
+  obtain ⟨t, ht, ⟨a, p, b, e1, e2, hp⟩, hn⟩ := Generic_Binding_exact o ho s items hm
   refine ⟨t, ht, ?_, hn⟩
-  rw [e1, e2, hp hok'.1, hc hok'.2]; simp
+  rw [e1, e2, hp hok]; simp
 
-/-- when only the arrow condition fails: exactly ONE character (the one after `=>`) is removed -/
-theorem Generic_Binding_exact_arrow (o : Oracle Node) (ho : OracleTok o) (s : Str)
-    (items : List (Item Node)) (hm : (planGenericBinding s).bind (runSlots o) = .ok items)
-    (hpre : GbPrefixOK s = true) :
-    ∃ t, tostrGenericBinding o items = .ok t ∧
-      ∃ a c b, c.length ≤ 1 ∧ toks s = a ++ (toks c ++ b) ∧ toks t = a ++ b := by
-  obtain ⟨t, ht, ⟨a, p, b, c, d, e1, e2, hl, hp, _⟩, _⟩ := Generic_Binding_exact o ho s items hm
-  refine ⟨t, ht, a ++ b, c, d, hl, ?_, ?_⟩
-  · rw [e1, hp hpre]; simp
-  · rw [e2]; simp
-
-/-- `generic :: a =>xb`: the `x` is silently DROPPED and `b` is bound -/
-theorem Generic_Binding_drops_char :
+/-- REGRESSION witnesses for /repo 98a89ee (`line[i + 3:]` → `line[i + 2:]`): `generic :: a =>xb` now
+    binds `xb` (was: `b`, the `x` silently dropped), `generic :: a=>b` and `generic::a=>b` are now
+    accepted (were: `Binding_Name_List("")`, rejected); all three keep their tokens -/
+theorem Generic_Binding_arrow_regression :
     (planGenericBinding "generic :: a =>xb".toList).bind (runSlots t_echoH)
+      = .ok [.none, .node "a".toList, .node "xb".toList] ∧
+    tostrGenericBinding t_echoH [.none, .node "a".toList, .node "xb".toList]
+      = .ok "GENERIC :: a => xb".toList ∧
+    toks "GENERIC :: a => xb".toList = toks "generic :: a =>xb".toList ∧
+    (planGenericBinding "generic :: a=>b".toList).bind (runSlots t_echoH)
       = .ok [.none, .node "a".toList, .node "b".toList] ∧
-    tostrGenericBinding t_echoH [.none, .node "a".toList, .node "b".toList]
-      = .ok "GENERIC :: a => b".toList ∧
-    toks "GENERIC :: a => b".toList ≠ toks "generic :: a =>xb".toList ∧
-    GbArrowOK "generic :: a =>xb".toList = false := by
+    planGenericBinding "generic::a=>b".toList
+      = .ok [.none, .child C.Generic_Spec "a".toList, .child C.Binding_Name_List "b".toList] ∧
+    GbOK "generic :: a =>xb".toList = true ∧ GbOK "generic::a=>b".toList = true := by
   decide +kernel
 
-/-- `generic xyz :: a => b` (and `genericxyz :: a => b`): the text between the keyword and `::`
-    is silently DROPPED when it does not start with a comma -/
+/-- STILL TRUE after 98a89ee: `generic xyz :: a => b` (and `genericxyz :: a => b`): the text between
+    the keyword and `::` is silently DROPPED when it does not start with a comma -/
 theorem Generic_Binding_drops_prefix :
     (planGenericBinding "generic xyz :: a => b".toList).bind (runSlots t_echoH)
       = .ok [.none, .node "a".toList, .node "b".toList] ∧
     tostrGenericBinding t_echoH [.none, .node "a".toList, .node "b".toList]
       = .ok "GENERIC :: a => b".toList ∧
     toks "GENERIC :: a => b".toList ≠ toks "generic xyz :: a => b".toList ∧
-    GbPrefixOK "generic xyz :: a => b".toList = false := by
-  decide +kernel
-
-/-- `generic::a=>b` is rejected: `Binding_Name_List("")` (the slot text is empty) -/
-theorem Generic_Binding_tight_witness :
-    planGenericBinding "generic::a=>b".toList
-      = .ok [.none, .child C.Generic_Spec "a".toList, .child C.Binding_Name_List []] := by
+    GbPrefixOK "generic xyz :: a => b".toList = false ∧
+    (planGenericBinding "genericxyz :: a => b".toList).bind (runSlots t_echoH)
+      = .ok [.none, .node "a".toList, .node "b".toList] := by
   decide +kernel
 
 example : (planGenericBinding "generic, public :: a => b, c".toList).bind (runSlots t_echoH)
@@ -1053,8 +1028,6 @@ theorem planBinaryArrow_total (a b : ClassId) : PlanTotal (planBinaryArrow a b) 
 #print axioms Proc_Decl_tostr_match_tokens_partial
 #print axioms Generic_Binding_exact
 #print axioms Generic_Binding_tostr_match_tokens_partial
-#print axioms Generic_Binding_exact_arrow
-#print axioms Generic_Binding_drops_char
 #print axioms Generic_Binding_drops_prefix
-#print axioms Generic_Binding_tight_witness
+#print axioms Generic_Binding_arrow_regression
 end Fp.Header
